@@ -441,8 +441,13 @@ func (mr MeshReader) Read(reader io.Reader) (*modeling.Mesh, error) {
 
 		// Read data
 		scanner := bufio.NewScanner(reader)
-		for i := int64(0); i < vertexElement.Count; i++ {
-			scanner.Scan()
+		for i := int64(0); i < vertexElement.Count; {
+			if !scanner.Scan() {
+				if err = scanner.Err(); err != nil {
+					return nil, err
+				}
+				return nil, fmt.Errorf("read %d of %d vertices: %w", i, vertexElement.Count, io.ErrUnexpectedEOF)
+			}
 
 			text := scanner.Text()
 			if text == "" {
@@ -458,6 +463,7 @@ func (mr MeshReader) Read(reader io.Reader) (*modeling.Mesh, error) {
 				}
 			}
 
+			i++
 		}
 
 		// Read face data if present
@@ -580,7 +586,12 @@ func readAsciiFaceElement(element Element, scanner *bufio.Scanner) ([]int, []vec
 
 	var i int
 	for i < int(element.Count) {
-		scanner.Scan()
+		if !scanner.Scan() {
+			if err := scanner.Err(); err != nil {
+				return nil, nil, err
+			}
+			return nil, nil, fmt.Errorf("read %d of %d faces: %w", i, element.Count, io.ErrUnexpectedEOF)
+		}
 		line := scanner.Text()
 
 		if line == "" {
